@@ -277,6 +277,10 @@ def run(model: RepoModel, rep, tier: str):
                        "by math.isnan only -- the falsy test (`not element`) is reached only after an isinstance test that covers int", 2)
     _r7_zero_is_a_value(model, rep)
     _r8_own_frame_and_positions(model, rep)
+    from .. import generic6
+    rep.rule("C16.R9", "row numbers are positions in every method: a parameter some method hands to .iloc is used with .loc only where it is "
+                       "known not to be an int", 0)
+    generic6.check_row_numbers_positional(model, rep, "C16.R9")
 
     # ---- methods that mark on every path (summary fixpoint)
     always_marks: Set[str] = set()
